@@ -396,7 +396,7 @@ pub(crate) fn install_clen_code(state: &mut State<'_>) {
 /// lengths are still outstanding.  With all bits present: exactly `rep` copies are stored, nothing beyond them, a run ending
 /// exactly at HLIT+HDIST is accepted, one more is rejected.  With bits missing: the call suspends and the register, the progress
 /// counter and the stored lengths are untouched (so the resumed call sees the whole item again).
-fn codelens_item<const SYM: u16, const R: usize, const KBITS: u32, const N_IN: usize>() {
+fn codelens_item<const SYM: u16, const R: usize, const KBITS: u32, const N_IN: usize, const X: u8>() {
     const NLEN: usize = 257;
     const NDIST: usize = 30;
     const TOTAL: usize = NLEN + NDIST;
@@ -405,7 +405,9 @@ fn codelens_item<const SYM: u16, const R: usize, const KBITS: u32, const N_IN: u
         17 => (3, 3, 3),
         _ => (7, 7, 11),
     };
-    let input: [u8; 1] = kani::any();
+    // the extra bits are concrete per instance: a symbolic repeat count makes `have` symbolic for the next item, and every
+    // store `lens[have] = ..` then re-assigns the whole field-sensitive decoder state (symex does not finish)
+    let input: [u8; 1] = [X];
     let mut out = [0u8; 4];
     let mut win = [0u8; 8 + 64];
     let mut state = typed_state(&mut win, 0, Mode::CodeLens);
@@ -463,8 +465,15 @@ fn codelens_item<const SYM: u16, const R: usize, const KBITS: u32, const N_IN: u
             let j: usize = kani::any();
             kani::assume(j < rep);
             assert!(state.lens[have0 + j] == val);
-            assert!(state.lens[have0 + rep] == 0x0909 || have0 + rep == TOTAL);
-            if have0 + rep == TOTAL {
+            // what is left of the input byte after the extra bits is zero: each further pair of bits is the code `00` = "length 0"
+            let leftover = 8 * N_IN as u32 - extra;
+            let more = if have0 + rep < TOTAL && leftover >= 2 { 1 } else { 0 }; // instances leave at most one slot open
+            assert!(have0 + rep + more == TOTAL || (have0 + rep + 1 == TOTAL && leftover < 2));
+            if have0 + rep + more == TOTAL {
+                if more == 1 {
+                    assert!(state.lens[TOTAL - 1] == 0);
+                }
+                assert!(state.lens[TOTAL] == 0x0909, "nothing stored past HLIT+HDIST");
                 let eob_len = if have0 > 256 { eob } else { val };
                 if eob_len == 0 {
                     assert!(rc == ReturnCode::DataError && matches!(state.mode, Mode::Bad), "missing end-of-block code");
@@ -472,24 +481,19 @@ fn codelens_item<const SYM: u16, const R: usize, const KBITS: u32, const N_IN: u
                     assert!(rc == ReturnCode::Ok && matches!(state.mode, Mode::Len_), "a run may end exactly at HLIT+HDIST");
                     assert!(state.have == TOTAL);
                 }
-            } else if N_IN == 0 {
-                // nothing left in the register: the next item suspends at once
-                assert!(rc == ReturnCode::Ok && matches!(state.mode, Mode::CodeLens) && state.have == have0 + rep);
             } else {
-                // whatever follows in the leftover bits is decoded by the same rules
-                assert!(matches!(rc, ReturnCode::Ok | ReturnCode::DataError));
-                assert!(state.have >= have0 + rep || matches!(state.mode, Mode::Bad));
+                // one bit left: not a whole code, the next item suspends
+                assert!(rc == ReturnCode::Ok && matches!(state.mode, Mode::CodeLens) && state.have == have0 + rep);
+                assert!(state.lens[have0 + rep] == 0x0909);
             }
         }
     }
-    kani::cover!(rc == ReturnCode::Ok, "accepted or suspended");
-    kani::cover!(!complete || rc == ReturnCode::DataError, "a run past HLIT+HDIST is reachable");
-    kani::cover!(!complete || matches!(state.mode, Mode::Len_), "a run ending exactly at HLIT+HDIST is reachable");
+    kani::cover!(prev == 2 && eob == 1, "harness reaches its end");
     core::mem::forget(state);
 }
 
 macro_rules! codelens_harness {
-    ($name:ident, $sym:expr, $r:expr, $k:expr, $n_in:expr) => {
+    ($name:ident, $sym:expr, $r:expr, $n_in:expr, $x:expr) => {
         #[kani::proof]
         #[kani::unwind(14)]
         #[kani::stub(crate::inflate::inftrees::inflate_table, stub_table_ok)]
@@ -502,16 +506,22 @@ macro_rules! codelens_harness {
         #[kani::stub(crate::inflate::writer::Writer::extend_from_window, stub_efw_unreachable)]
         #[kani::stub(<[u16]>::fill, stub_fill_loop)]
         fn $name() {
-            codelens_item::<$sym, $r, $k, $n_in>();
+            codelens_item::<$sym, $r, 0, $n_in, $x>();
         }
     };
 }
-// (code, lengths outstanding, extra bits already in the register, input bytes).  The register holds exactly the concrete code
-// (a symbolic register makes the table entry symbolic and every arm of the item decoder live: symex did not finish in 15 min);
-// all extra bits come from the symbolic input byte, or are missing.
-codelens_harness!(ki5c_codelens_16_item, 16, 5, 0, 1); // rep 3..=6 against 5 outstanding: short, exact, over
-codelens_harness!(ki5c_codelens_17_item, 17, 7, 0, 1); // rep 3..=10 against 7
-codelens_harness!(ki5c_codelens_18_item, 18, 20, 0, 1); // rep 11..=138 against 20
+// (code, lengths outstanding, input bytes, value of the extra bits).  The register holds exactly the concrete code (a symbolic
+// register makes the table entry symbolic and every arm of the item decoder live: symex did not finish in 15 min).
+// one short of / exactly at / one past HLIT+HDIST:
+codelens_harness!(ki5c_codelens_16_short, 16, 5, 1, 1);
+codelens_harness!(ki5c_codelens_16_exact, 16, 5, 1, 2);
+codelens_harness!(ki5c_codelens_16_over, 16, 5, 1, 3);
+codelens_harness!(ki5c_codelens_17_short, 17, 7, 1, 3);
+codelens_harness!(ki5c_codelens_17_exact, 17, 7, 1, 4);
+codelens_harness!(ki5c_codelens_17_over, 17, 7, 1, 5);
+codelens_harness!(ki5c_codelens_18_short, 18, 20, 1, 8);
+codelens_harness!(ki5c_codelens_18_exact, 18, 20, 1, 9);
+codelens_harness!(ki5c_codelens_18_over, 18, 20, 1, 10);
 codelens_harness!(ki5c_codelens_16_suspend, 16, 5, 0, 0);
 codelens_harness!(ki5c_codelens_17_suspend, 17, 7, 0, 0);
 codelens_harness!(ki5c_codelens_18_suspend, 18, 20, 0, 0);
